@@ -1,23 +1,62 @@
 PROP = {
-    "thm": ["Umya.Thm.C04", "Umya.Thm.C04Bytes"],
+    "thm": ["Umya.Thm.C04", "Umya.Thm.C04Bytes", "Umya.Thm.C04Fix"],
     "harness": "c04",
     "level": "proof",
     "stateful": True,
-    "level_text": "Proof for the projection the model covers, exploration for the rest. Theorems: the attribute channel is the identity over any number of "
-                  "generations (C04_attr_channel; C04_attr_drift_fails documents the repaired drift); for cells of every kind the first re-save shows the original's "
-                  "non-blank cells and the second generation is a fixed point (C04_fixpoint_cells, from C01_roundtrip + idempotence of the normalisation); saving "
-                  "twice gives the same content (C04_save_pure, from C12); a single-cell edit leaves every other cell as it was (C04_edit_local). Tie and the non-modelled "
-                  "part: corpus files and generated annotated workbooks are taken through three load/save generations with the FULL public-getter view compared "
-                  "(gen1 == gen2 == gen3, orig == gen1 on the semantic projection, part lists of two saves equal, single-cell edit locality), and every sheet name / "
-                  "hyperlink target is followed stored text -> raw attribute text in the file -> reloaded text against the model's attrWrite / attrRead.",
-    "level_note": "Trusted: Lean kernel + 3 standard axioms; C01's and C12's models as tied by their own correspondence checks; the harness views. "
-                  "Styles, annotations, drawings, print settings are compared between generations by the harness only (exploration).",
-    "expect_theorems": ["C04_bytes_resave_stable", "C04_channels_match_source", "C04_attr_channel", "C04_fixpoint_cells", "C04_save_pure", "C04_edit_local"],
-    "rule": "case = a generated annotated workbook (per-case seed) or a corpus file; three load/save generations, a second save of generation 1, one single-cell edit; "
-            "attr requests = one per sheet name and external hyperlink target. non-trivial = attr requests and case headers; distinct = distinct request line",
-    "trusted_base": TB_COMMON + ["models of C01 / C12 / XmlEsc (each tied by its own check)", "harness full_view over the public getters"],
-    "assumptions": ["fewer than 2^64 distinct strings; cells satisfy C01's cellOK (no unresolved lazy values, no rich text under a formula, no rich text without runs)"],
-    "partial_clauses": ["generation stability of styles, annotations, column/row dimensions, drawings, charts: harness oracle only (gen1 == gen2 == gen3 on the full view)",
-                        "orig ~ gen1 is checked on the C02 view (cells, formulas, merges, hyperlinks, names, sheet list), not on everything"],
-    "technique": "Lean 4 corollaries of the round-trip theorems (second generation = fixed point) + generation-chain differential check on corpus and generated files",
+    "level_text": "Proof on the projection the models cover (BookP of Umya/Thm/C04Fix.lean), exploration for the rest. The argument is stated once "
+                  "(Lemmas/Resave.lean: a codec (rs, norm, WF) with rs x = some (norm x) on WF, norm idempotent, WF closed under norm => generation 1 = norm x, "
+                  "generation 2 = generation 1, every later generation too, and every observation blind to norm is unchanged: C04_fixpoint_generic, C04_generations) "
+                  "and instantiated with every concrete codec model of C01 / C05 / C06, citing their round-trip theorems and adding the closure of their hypotheses "
+                  "under norm (Lemmas/Resave{Style,Annot,Cells,Cf}.lean): cells of every value kind and the whole cell store incl. the shared-string table "
+                  "(C04_fixpoint_cell, C04_fixpoint_cell_store: the second save writes the very same <c>/<si> facts; C01's side conditions are needed for the original only), "
+                  "string items, colour, font, fill, borders, alignment, protection, numFmt, row, column, the style tables (C04_fixpoint_style_tables), tab colour, pane, "
+                  "selection, sheet view(s), page setup, margins, print options, header/footer, sheet / workbook protection, active tab, defined-name attributes, data "
+                  "validations, conditional formatting WITH its dxf table (the table does not grow on the second save), sheet list, merges, comments, hyperlinks, defined names. "
+                  "C04_workbook_fixpoint: for a projection with any numbers of sheets / cells / style components / annotations, resave b = some g1 => g1 = normBook b (explicit), "
+                  "resave g1 = some g1, the hypotheses hold for g1 again, and the getter-level view of g1 is that of b. C04_edit_local_book: an edit of one cell that keeps it written "
+                  "commutes with save+load, everything else unchanged. C04_save_pure_book: one save+load does not depend on the save environment (authors hash-set order, first "
+                  "relationship id, writer flavour). The older corollaries stay (attribute channel over n generations, C04_bytes_resave_stable at character level). "
+                  "Tie and the non-modelled part: corpus files and generated annotated workbooks are taken through three load/save generations with the FULL public-getter view compared "
+                  "(gen1 == gen2 == gen3, orig == gen1, part lists of two saves equal, single-cell edit locality); for generated workbooks (with values whose normal form is not the "
+                  "identity put on them through the setters) the model-level value of the original incl. has-value states is sent per family to the driver, which applies the "
+                  "model's norm, and the result is compared with the implementation's generation 1 — and the same from generation 1 to generation 2 — (c04 norm: hf, margins, views incl. pane "
+                  "and selections, tab colour, cells kept, font flags and colour, row, col); independently of the model the harness requires spec(gen1) == spec(gen2) with has-value states "
+                  "(generation-2-not-a-fixed-point) and getters(orig) == getters(gen1) on hf / margins / views (first-generation-getters-differ); sheet names / hyperlink targets are followed stored text -> raw attribute -> reloaded text against attrWrite / attrRead.",
+    "level_note": "Trusted: Lean kernel + 3 standard axioms; the models of C01 / C05 / C06 / C12 as tied by their own correspondence checks and by the c04 norm requests; the harness "
+                  "views (has-value states are read from the Debug rendering of the structs). Theorems are about the models: the step bytes -> element tree is C02/C03's. "
+                  "Families without a model are compared between generations by the harness only (exploration).",
+    "expect_theorems": ["C04_bytes_resave_stable", "C04_channels_match_source", "C04_attr_channel", "C04_fixpoint_cells", "C04_save_pure", "C04_edit_local",
+                        "C04_fixpoint_generic", "C04_generations",
+                        "C04_fixpoint_color", "C04_fixpoint_font", "C04_fixpoint_fill", "C04_fixpoint_borders", "C04_fixpoint_alignment", "C04_fixpoint_protection",
+                        "C04_fixpoint_numfmt", "C04_fixpoint_row", "C04_fixpoint_column", "C04_fixpoint_style_tables",
+                        "C04_fixpoint_tab_color", "C04_fixpoint_pane", "C04_fixpoint_selection", "C04_fixpoint_sheet_view", "C04_fixpoint_sheet_views",
+                        "C04_fixpoint_page_setup", "C04_fixpoint_page_margins", "C04_fixpoint_print_options", "C04_fixpoint_header_footer",
+                        "C04_fixpoint_sheet_protection", "C04_fixpoint_workbook_protection", "C04_fixpoint_active_tab", "C04_fixpoint_defined_name_attrs",
+                        "C04_fixpoint_data_validations", "C04_fixpoint_conditional_formatting",
+                        "C04_fixpoint_sheet_list", "C04_fixpoint_merges", "C04_fixpoint_comments", "C04_fixpoint_hyperlinks", "C04_fixpoint_defined_names",
+                        "C04_fixpoint_string_item", "C04_fixpoint_cell", "C04_fixpoint_cell_store",
+                        "C04_workbook_fixpoint", "C04_workbook_resave_defined", "C04_workbook_generations",
+                        "C04_save_pure_book", "C04_save_pure_cells", "C04_edit_local_book", "C04_edit_string_indices"],
+    "rule": "case = a generated annotated workbook (per-case seed; values with a non-identity normal form added through the setters: twist.* counters) or a corpus file; "
+            "three load/save generations, a second save of generation 1, one single-cell edit; attr requests = one per sheet name and external hyperlink target; "
+            "norm requests (generated workbooks; once original -> generation 1, once generation 1 -> generation 2) = per sheet one each for hf / margins / views / tab / cells, up to 8 fonts, up to 12 rows and 12 columns. "
+            "non-trivial = attr and norm requests and case headers; distinct = distinct request line",
+    "trusted_base": TB_COMMON + ["models of C01 / C05 / C06 / C12 / XmlEsc (each tied by its own check)", "harness full_view over the public getters; has-value states from the Debug rendering"],
+    "assumptions": ["fewer than 2^64 distinct strings / dxf entries; cells satisfy C01's cellOK (no unresolved lazy values, no rich text under a formula, no rich text without runs)",
+                    "style values are ones a Rust struct can hold (Range: numbers in their types, float fields hold float texts cf t = t, cf \"0\" = \"0\"); for the getter-level view of fonts / fills / "
+                    "borders: colours in one of the setters' forms (OneForm / Fill.WF / Borders.WF; Borders.WF is also needed for idempotence of the borders normal form)",
+                    "annotation values satisfy the WF / RangesOK / BlockWF / AreaOK predicates of the C06 theorems (coordinates up to ZZZ / u32 rows, printable range shapes, u32 counters)",
+                    "the tab colour is viewed in its written form (an EMPTY colour object does not survive a save: known finding of C06, kept out of the generated cases here)"],
+    "partial_clauses": ["covered by theorem (on the models) AND by the c04 norm tie: cells kept / dropped (blank cells carrying a style object are left out of the tie: whether they survive depends on the xf index the style resolves to), "
+                        "header/footer, page margins, sheet views with pane and selections, tab colour, font flags and colour, row and column attributes",
+                        "covered by theorem (on the models), tied by C01 / C05 / C06's own checks and here by the generation oracle only: cell values per kind, shared strings, fills, borders, alignment, protection, "
+                        "numFmt, row / column style indices, style tables, page setup, print options, sheet / workbook protection, active tab, defined names and their attributes, data validations, conditional "
+                        "formatting + dxf table, sheet list, merges, comments (authors), hyperlinks",
+                        "harness oracle only (gen1 == gen2 == gen3 on the full getter view, no model): drawings, charts, images, theme, pivot tables / caches, tables, VBA and other raw parts, printer-settings "
+                        "blobs, rich-text comment bodies and their shapes, auto-filter columns, column / row style indices resolved through the style tables, document properties",
+                        "C04_edit_local_book covers edits that keep the cell written (value / formula / style on a non-blank or styled cell); an edit that creates a cell is covered by position in C04_edit_local "
+                        "and by the harness (edit-not-local oracle)",
+                        "the composition bytes -> tree -> model value is per part (C02_bytes_parse / C04_bytes_resave_stable for trees in normal form; C02/C03 validate the rest per file)"],
+    "technique": "Lean 4: one generic fixed-point lemma for codecs with explicit idempotent normal forms, instantiated with every codec model (closure of the hypotheses under norm proved), composed into a "
+                 "workbook-level theorem + generation-chain differential check with a per-family norm tie on generated files",
 }
